@@ -329,6 +329,9 @@ func c17BuildConc(env *core.Env, cidx int, cfg *c17ConcCfg) *c17ConcCase {
 			}
 			return -1
 		}
+		// the hash index has a fixed capacity (2520 slots; an insert into a full table is dropped silently - outside the supported
+		// envelope): all mutators together stay below c17HashCap live entries at every moment, whatever the schedule
+		hashOwnCap := (c17HashCap - 500) / max(cfg.Mutators, 1)
 		if mut {
 			for j := 0; j < cfg.Preload; j++ {
 				if k := pickInsKey(); k >= 0 {
@@ -391,7 +394,7 @@ func c17BuildConc(env *core.Env, cidx int, cfg *c17ConcCfg) *c17ConcCase {
 				ne := newEnt(k2, false, false)
 				own[i] = ne
 				cc.progs[w] = append(cc.progs[w], c17Step{Kind: c17StepUpd, Key: cc.ents[old].Key, Key2: k2, Kill: old, Make: ne})
-			case (rng.Float64() < pIns || len(own) == 0):
+			case (rng.Float64() < pIns || len(own) == 0) && !(cfg.Kind == c17Hash && len(own) >= hashOwnCap):
 				k := pickInsKey()
 				if k < 0 {
 					continue
@@ -565,9 +568,30 @@ func c17ExecConc(cc *c17ConcCase, loadSeed int64, res *core.CaseResult, tags []s
 		for e := range cc.ents {
 			ridEnt[cc.ents[e].Rid] = e
 		}
+		// the loaded state is checked before the concurrent phase starts: every preloaded entry must be found under its key
+		for e := range cc.ents {
+			if !cc.ents[e].Preloaded {
+				continue
+			}
+			found := false
+			for _, r := range f.scanKey(cc.ents[e].Key) {
+				if r == cc.ents[e].Rid {
+					found = true
+					break
+				}
+			}
+			if !found {
+				loadViol = fmt.Sprintf("after the sequential load, a lookup of key k%d does not return the loaded entry (k%d,%v)", cc.ents[e].Key, cc.ents[e].Key, cc.ents[e].Rid)
+				return
+			}
+		}
 	}()
 	if loadViol != "" {
-		res.Violate("panic", tags, desc, "%s", loadViol)
+		k := "panic"
+		if strings.HasPrefix(loadViol, "after the sequential load") {
+			k = "readback"
+		}
+		res.Violate(k, tags, desc, "%s", loadViol)
 		return
 	}
 	alloc0 := f.allocated()
